@@ -44,7 +44,7 @@ def main(argv=None):
     # 1. translator front end, built against /repo's working tree
     builds = {}
     variants = [(fs, extra) for fs in fss for extra in ((), ("unified_ref",))]
-    with ThreadPoolExecutor(len(variants)) as ex:      # independent target dirs: build them side by side
+    with ThreadPoolExecutor(min(4, len(variants))) as ex:      # independent target dirs: up to 4 builds side by side
         built = list(ex.map(lambda v: E.cargo_build("hx_consts", fs=v[0], extra_features=v[1]), variants))
     for (fs, extra), (exe, err, bs) in zip(variants, built):
         builds[fs + ("+unified_ref" if extra else "")] = bs
